@@ -5,7 +5,7 @@ never parses.  Written from doc/source/language_reference.rst ("Variable
 access", "Function calls", "List/Map/Index expressions", "Delegate
 expressions") and the docstrings of the standard library functions it names
 (let, with, unpack, def, lambda, `->`, `.`, select, where, len, toList,
-`+ * = > in`).
+first, last, single, sum, dict(items), `+ * = > in`).
 
 AST (tuples or lists - a replayed case arrives as JSON):
   ('lit', v)                      v: None | bool | int | str
@@ -29,7 +29,8 @@ Values: None, bool, int, str, list, dict (insertion ordered), Lazy (the
 one-shot iterable returned by select / where / collection attribution /
 concatenation), Frame (a context object), Closure (a delegate).
 
-Outcome of run(): ('v', plain value) | ('e',) | None.  None means the case
+Outcome of run(): ('v', plain value) | ('e',) | None (with classes=True an
+error is ('e', name of the documented exception class or None)).  None means the case
 leaves the documented domain (counted, never judged): a one-shot iterable
 consumed twice, equality / ordering / truth of values for which the
 documentation defines none (bool against number, iterables, contexts), a
@@ -41,7 +42,12 @@ import re
 
 
 class Err(Exception):
-    """The model predicts that evaluation fails (errors are compared coarsely)."""
+    """The model predicts that evaluation fails.  Errors are compared coarsely unless the documentation
+    names the exception: then `cls` is its class name (first / last / single: "raises StopIteration")."""
+
+    def __init__(self, message='', cls=None):
+        Exception.__init__(self, message)
+        self.cls = cls
 
 
 class OutOfDomain(Exception):
@@ -367,6 +373,82 @@ def _to_list(frame, args, kwargs):
     return list(args[0])
 
 
+def _first(frame, args, kwargs):
+    # "Returns the first element of the collection. If the collection is empty, returns the default value
+    # or raises StopIteration if default is not specified."  Nothing beyond the first element is asked for.
+    if not 1 <= len(args) <= 2 or kwargs or not is_coll(args[0]):
+        raise Err('first')
+    for x in args[0]:
+        return x
+    if len(args) == 2:
+        return args[1]
+    raise Err('first() of an empty collection', 'StopIteration')
+
+
+def _last(frame, args, kwargs):
+    # "Returns the last element of the collection. If the collection is empty, returns the default value
+    # or raises StopIteration if default is not specified."
+    if not 1 <= len(args) <= 2 or kwargs or not is_coll(args[0]):
+        raise Err('last')
+    items = list(args[0])
+    if items:
+        return items[-1]
+    if len(args) == 2:
+        return args[1]
+    raise Err('last() of an empty collection', 'StopIteration')
+
+
+def _single(frame, args, kwargs):
+    # "Checks that collection has only one element and returns it. If the collection is empty or has more
+    # than one element, raises StopIteration."
+    if len(args) != 1 or kwargs or not is_coll(args[0]):
+        raise Err('single')
+    items = []
+    for x in args[0]:
+        items.append(x)
+        if len(items) > 1:
+            break
+    if len(items) != 1:
+        raise Err('single() of a collection of another size', 'StopIteration')
+    return items[0]
+
+
+def _sum(frame, args, kwargs):
+    # "Returns the sum of values in a collection starting from initial if specified."
+    if not 1 <= len(args) <= 2 or kwargs or not is_coll(args[0]):
+        raise Err('sum')
+    it = iter(args[0])
+    if len(args) == 2:
+        acc = args[1]
+    else:
+        for acc in it:
+            break
+        else:
+            raise Err('sum of an empty collection without initial value')
+    for x in it:
+        acc = op_add(acc, x)
+    return acc
+
+
+def _dict(frame, args, kwargs):
+    # dict(items): "Returns dictionary with keys and values built on items pairs."
+    if len(args) != 1 or kwargs:
+        raise OutOfDomain('dict(key => value, ...) is not part of the fragment')
+    if not is_coll(args[0]):
+        raise Err('dict')
+    out = {}
+    for item in args[0]:
+        if not is_coll(item):
+            raise Err('dict: item is not a pair')
+        pair = list(item)
+        if len(pair) > 2:
+            raise OutOfDomain('dict: item longer than a pair')
+        if len(pair) < 2:
+            raise Err('dict: item shorter than a pair')
+        put(out, key_ok(pair[0]), pair[1])
+    return out
+
+
 # name -> (form, lazy positions, implementation[, (documented parameter names, number of required ones)])
 # With parameter names the arguments may be passed by keyword and arrive positionally (missing optional
 # ones as null); without, keyword arguments are handed to the implementation (let) .
@@ -379,9 +461,14 @@ LIB = {
     'select': ('m', (1,), _select, (('collection', 'selector'), 2)),
     'where': ('m', (1,), _where, (('collection', 'predicate'), 2)),
     'toDict': ('m', (1, 2), _to_dict, (('collection', 'keySelector', 'valueSelector'), 2)),
-    'distinct': ('m', (1,), _distinct, (('collection', 'keySelector'), 1)),
+    'distinct': ('fm', (1,), _distinct, (('collection', 'keySelector'), 1)),     # an extension method
     'len': ('fm', (), _len),
     'toList': ('m', (), _to_list),
+    'first': ('m', (), _first),
+    'last': ('m', (), _last),
+    'single': ('m', (), _single),
+    'sum': ('m', (), _sum),
+    'dict': ('f', (), _dict),
 }
 
 
@@ -511,10 +598,11 @@ def finalize(v):
     return v
 
 
-def run(ast, data=None, bind_data=True, external=None):
+def run(ast, data=None, bind_data=True, external=None, classes=False):
     """Evaluate ast with `$` bound to the document `data`.  `external`: variables a host supplies for
     names bound in no scope (language reference, "Variable access": the host may override
-    #get_context_data and "look up the value in an external data source")."""
+    #get_context_data and "look up the value in an external data source").  `classes`: a predicted
+    error is reported as ('e', documented exception class name or None) instead of ('e',)."""
     NOTES.clear()
     top = Frame()
     if external:
@@ -526,8 +614,8 @@ def run(ast, data=None, bind_data=True, external=None):
         return ('v', finalize(ev(ast, top)))
     except OutOfDomain:
         return None
-    except Err:
-        return ('e',)
+    except Err as e:
+        return ('e', e.cls) if classes else ('e',)
 
 
 def same(x, y):
